@@ -3,402 +3,532 @@ package props
 import (
 	"fmt"
 	"go/ast"
-	"go/token"
 	"go/types"
+	"sort"
 	"strings"
 
 	"siotcheck/kit"
 )
 
-// C19/R4: every client method runs encode → write → read → decode, returns
-// every transport error, checks the function code and (writes) the echo.
+// C19/R4: every client entry point runs encode → write → read → decode on
+// what the previous step produced, returns every transport error, rejects a
+// response with a foreign function code and (writes) one that does not echo
+// the request.  The rule is decided by evaluating each entry point — with the
+// module functions it is built from evaluated in line — under scenarios in
+// which the transport (an interface: the environment) succeeds or fails at a
+// chosen step and answers with a chosen function code.
 
-type clientCalls struct {
-	enc, wr, rd, dec *ast.CallExpr
-	n                map[string]int
+type clientScenario struct {
+	fail   string // "", "encode", "write", "read", "decode"
+	respFc int64
+	echo   bool
+}
+
+type clientRun struct {
+	res   *kit.IResult
+	ctors []string // constructor events "name|arg,arg"
+}
+
+const (
+	clID    = 0x11
+	clPkt   = 9   // length of the packet the scenario's Encode returns
+	clCnt   = 7   // number of bytes the scenario's Read reports
+	clResp  = 5   // length of the response data
+	clParam = 0x1200
+)
+
+// clientEntries returns the methods of client types (structs with a
+// transport field) from which the transport's encode is reachable through
+// module calls, that no other such method calls.
+func (m *c19Model) clientEntries() []*kit.Func {
+	c := m.c
+	reach := map[*kit.Func]bool{}
+	var fns []*kit.Func
+	for _, f := range c.P.Funcs("modbus") {
+		if f.Decl != nil {
+			fns = append(fns, f)
+		}
+	}
+	for _, f := range fns {
+		for _, call := range f.AllCalls(true) {
+			if m.transportCall(f, call) == "encode" {
+				reach[f] = true
+			}
+		}
+	}
+	for changed := true; changed; {
+		changed = false
+		for _, f := range fns {
+			if reach[f] {
+				continue
+			}
+			for _, call := range f.AllCalls(true) {
+				if cf := f.CalleeFunc(call); cf != nil && reach[cf] {
+					reach[f] = true
+					changed = true
+				}
+			}
+		}
+	}
+	called := map[*kit.Func]bool{}
+	for _, f := range fns {
+		if !reach[f] {
+			continue
+		}
+		for _, call := range f.AllCalls(true) {
+			if cf := f.CalleeFunc(call); cf != nil && cf != f && reach[cf] {
+				called[cf] = true
+			}
+		}
+	}
+	var out []*kit.Func
+	for _, f := range fns {
+		if !reach[f] || called[f] || f.Obj == nil {
+			continue
+		}
+		// a method of a type that holds a transport, also decoding (the server loop encodes too, after decoding)
+		sig := f.Obj.Type().(*types.Signature)
+		if sig.Recv() == nil {
+			continue
+		}
+		firstIsEncode := false
+		for _, cl := range m.Clients {
+			if cl == f {
+				firstIsEncode = true
+			}
+		}
+		if !firstIsEncode {
+			// entry points that delegate: they must reach a decode, and not the
+			// server loop (which decodes a request before it encodes the answer)
+			if !m.reachesDecode(f) || m.reachesServerLoop(f) {
+				continue
+			}
+		}
+		out = append(out, f)
+	}
+	sort.Slice(out, func(i, j int) bool { return out[i].Pos() < out[j].Pos() })
+	return out
+}
+
+func (m *c19Model) reachesDecode(f *kit.Func) bool {
+	seen := map[*kit.Func]bool{}
+	var walk func(g *kit.Func) bool
+	walk = func(g *kit.Func) bool {
+		if seen[g] {
+			return false
+		}
+		seen[g] = true
+		for _, call := range g.AllCalls(true) {
+			if m.transportCall(g, call) == "decode" {
+				return true
+			}
+			if cf := g.CalleeFunc(call); cf != nil && cf.Decl != nil && walk(cf) {
+				return true
+			}
+		}
+		return false
+	}
+	return walk(f)
+}
+
+// reachesServerLoop: f is, or calls (also with go / defer), a function that decodes before it encodes.
+func (m *c19Model) reachesServerLoop(f *kit.Func) bool {
+	seen := map[*kit.Func]bool{}
+	var walk func(g *kit.Func) bool
+	walk = func(g *kit.Func) bool {
+		if seen[g] {
+			return false
+		}
+		seen[g] = true
+		if m.decodesFirst(g) {
+			return true
+		}
+		for _, call := range g.AllCalls(true) {
+			if cf := g.CalleeFunc(call); cf != nil && cf.Decl != nil && walk(cf) {
+				return true
+			}
+		}
+		return false
+	}
+	return walk(f)
+}
+
+// decodesFirst: the function itself calls decode before (not dominated by) encode — the server loop.
+func (m *c19Model) decodesFirst(f *kit.Func) bool {
+	var enc, dec *ast.CallExpr
+	for _, call := range f.AllCalls(false) {
+		switch m.transportCall(f, call) {
+		case "encode":
+			enc = call
+		case "decode":
+			dec = call
+		}
+	}
+	return enc != nil && dec != nil && !m.c.P.Graph(f).NodeDominates(enc, dec)
 }
 
 func c19R4(c *kit.Ctx, m *c19Model) {
 	r := c.Rule("R4", "client methods: encode → write → read → decode, errors returned, function code and echo checked", 20)
-	entries := 0
-	for _, f := range m.Clients {
+	entries := m.clientEntries()
+	if len(entries) < 6 {
+		c.Fatalf("expected at least 6 client request entry points (methods that run, or delegate to, an encode…decode cycle), found %d", len(entries))
+	}
+	var bounded []*kit.Func
+	seen := map[*kit.Func]bool{}
+	for _, f := range entries {
 		c.Analysed(f)
-		entries += c19ClientMethod(c, m, r, f)
+		c19ClientEntry(c, m, r, f)
 	}
-	if entries < 6 {
-		c.Fatalf("expected at least 6 client request entry points (methods that run, or delegate to, an encode…decode cycle), found %d", entries)
-	}
-	boundsRule(c, r, m.Clients, nil)
-}
-
-// c19Wrappers lists the methods that delegate to the shared request cycle h:
-// `return recv.h(…, id, ctor(params…))`.
-type clientWrapper struct {
-	f       *kit.Func
-	call    *ast.CallExpr
-	code    int64
-	problem string
-}
-
-func c19Wrappers(c *kit.Ctx, m *c19Model, h *kit.Func, idIdx, reqIdx int) []clientWrapper {
-	var out []clientWrapper
-	for _, w := range c.P.Funcs("modbus") {
-		if w.Decl == nil || w == h {
+	// index/slice accesses of every function that talks to the transport
+	for _, f := range c.P.Funcs("modbus") {
+		if f.Decl == nil || seen[f] {
 			continue
 		}
-		for _, call := range w.AllCalls(false) {
-			if w.CalleeFunc(call) != h {
-				continue
+		for _, call := range f.AllCalls(false) {
+			if k := m.transportCall(f, call); k == "read" && !m.decodesFirstOrServer(f) {
+				seen[f] = true
+				bounded = append(bounded, f)
 			}
-			cw := clientWrapper{f: w, call: call, code: -1}
-			info := w.Info()
-			params := w.Params()
-			switch {
-			case len(call.Args) <= idIdx || len(call.Args) <= reqIdx || len(params) < 2:
-				cw.problem = "unexpected argument list"
-			default:
-				if _, isRet := c.P.Parent(w.File, call).(*ast.ReturnStmt); !isRet {
-					cw.problem = "the result of the shared request cycle is not returned as it is"
-				}
-				if kit.ObjOf(info, call.Args[idIdx]) != types.Object(params[0]) {
-					cw.problem = fmt.Sprintf("the unit id handed on (`%s`) is not the method's first parameter", w.Str(call.Args[idIdx]))
-				}
-				ctorCall, ok := ast.Unparen(mbResolve(w, call.Args[reqIdx])).(*ast.CallExpr)
-				var ctor *kit.Func
-				if ok {
-					ctor = w.CalleeFunc(ctorCall)
-				}
-				switch {
-				case ctor == nil || ctor.Decl == nil:
-					cw.problem = "the request is not built by a module constructor"
-				case len(ctorCall.Args) != len(params)-1:
-					cw.problem = "the request constructor does not receive the method's parameters"
-				default:
-					for i, a := range ctorCall.Args {
-						if kit.ObjOf(info, a) != types.Object(params[i+1]) {
-							cw.problem = fmt.Sprintf("request constructor argument %d is `%s`, not parameter %s", i+1, w.Str(a), params[i+1].Name())
-						}
-					}
-					code, msg := m.ctorShape(ctor)
-					if msg != "" {
-						cw.problem = ctor.Name + ": " + msg
-					}
-					cw.code = code
-				}
-			}
-			out = append(out, cw)
 		}
 	}
-	return out
+	boundsRule(c, r, bounded, nil)
 }
 
-// c19ClientMethod checks one request cycle and returns the number of client
-// entry points it serves (1, or the number of methods delegating to it).
-func c19ClientMethod(c *kit.Ctx, m *c19Model, r *kit.Rule, f *kit.Func) int {
-	info := f.Info()
-	g := c.P.Graph(f)
-	cc := clientCalls{n: map[string]int{}}
-	for _, call := range f.AllCalls(false) {
-		k := m.transportCall(f, call)
-		if k == "" {
-			continue
-		}
-		cc.n[k]++
-		switch k {
-		case "encode":
-			cc.enc = call
-		case "write":
-			cc.wr = call
-		case "read":
-			cc.rd = call
-		case "decode":
-			cc.dec = call
-		}
-	}
-	oSeq := r.Ob(f, nil, "sequence", "one encode, write, read and decode, in this order, each handing its result to the next; the unit id and the request built from the parameters are what is encoded")
-	if cc.n["encode"] != 1 || cc.n["write"] != 1 || cc.n["read"] != 1 || cc.n["decode"] != 1 {
-		oSeq.Undecided("expected exactly one call of each transport method, found %v", cc.n)
-		return 1
-	}
-	lhsOf := func(call *ast.CallExpr) []ast.Expr {
-		if as, ok := c.P.Parent(f.File, call).(*ast.AssignStmt); ok && len(as.Rhs) == 1 {
-			return as.Lhs
-		}
-		return nil
-	}
-	encL, rdL, decL := lhsOf(cc.enc), lhsOf(cc.rd), lhsOf(cc.dec)
-	var problems []string
-	if !(g.NodeDominates(cc.enc, cc.wr) && g.NodeDominates(cc.wr, cc.rd) && g.NodeDominates(cc.rd, cc.dec)) {
-		problems = append(problems, "the transport calls are not ordered encode, write, read, decode")
-	}
-	if len(encL) != 2 || len(rdL) != 2 || len(decL) != 3 {
-		oSeq.Undecided("results of the transport calls are not assigned to variables")
-		return 1
-	}
-	packet := kit.ObjOf(info, encL[0])
-	if len(cc.wr.Args) != 1 || packet == nil || kit.ObjOf(info, cc.wr.Args[0]) != packet {
-		problems = append(problems, fmt.Sprintf("what is written (`%s`) is not the encoded packet", f.Str(cc.wr.Args[0])))
-	}
-	// the buffer read is what is decoded, cut to the count read
-	bufObj := kit.ObjOf(info, cc.rd.Args[0])
-	cnt := kit.ObjOf(info, rdL[0])
-	decArg := kit.ObjOf(info, cc.dec.Args[0])
-	if bufObj == nil || decArg != bufObj {
-		problems = append(problems, fmt.Sprintf("what is decoded (`%s`) is not the buffer that was read into", f.Str(cc.dec.Args[0])))
-	} else {
-		cut := false
-		ast.Inspect(f.Body, func(n ast.Node) bool {
-			as, ok := n.(*ast.AssignStmt)
-			if !ok || len(as.Lhs) != 1 || len(as.Rhs) != 1 || kit.ObjOf(info, as.Lhs[0]) != bufObj {
+// decodesFirstOrServer: f is not part of a client request cycle (no entry point reaches it).
+func (m *c19Model) decodesFirstOrServer(f *kit.Func) bool {
+	for _, e := range m.clientEntries() {
+		seen := map[*kit.Func]bool{}
+		var walk func(g *kit.Func) bool
+		walk = func(g *kit.Func) bool {
+			if g == f {
 				return true
 			}
-			if se, ok := ast.Unparen(as.Rhs[0]).(*ast.SliceExpr); ok && kit.ObjOf(info, se.X) == bufObj && se.Low == nil && se.High != nil && cnt != nil && kit.ObjOf(info, se.High) == cnt {
-				if g.NodeDominates(cc.rd, as) && g.NodeDominates(as, cc.dec) {
-					cut = true
+			if seen[g] {
+				return false
+			}
+			seen[g] = true
+			for _, call := range g.AllCalls(true) {
+				if cf := g.CalleeFunc(call); cf != nil && cf.Decl != nil && walk(cf) {
+					return true
 				}
 			}
-			return true
-		})
-		if !cut {
-			problems = append(problems, "the buffer is not cut to the number of bytes read before it is decoded")
-		}
-	}
-	// id and request
-	params := f.Params()
-	if len(params) < 2 {
-		oSeq.Undecided("unexpected parameter list")
-		return 1
-	}
-	entries := 1
-	reqVar := kit.ObjOf(info, cc.enc.Args[1])
-	idObj := kit.ObjOf(info, cc.enc.Args[0])
-	reqCodes := []int64{}
-	paramIdx := func(o types.Object) int {
-		for i, p := range params {
-			if types.Object(p) == o {
-				return i
-			}
-		}
-		return -1
-	}
-	if ri := paramIdx(reqVar); ri >= 0 && types.Identical(params[ri].Type(), m.PduType) {
-		// shared request cycle: the request and the unit id are parameters;
-		// every method delegating to it must hand on its id and a constructed request
-		ii := paramIdx(idObj)
-		if ii < 0 {
-			problems = append(problems, fmt.Sprintf("the unit id encoded (`%s`) is not a parameter", f.Str(cc.enc.Args[0])))
-		}
-		ws := c19Wrappers(c, m, f, ii, ri)
-		entries = len(ws)
-		if len(ws) == 0 {
-			oSeq.Undecided("the request cycle takes the request as a parameter but nothing calls it")
-			return 0
-		}
-		var names []string
-		for _, w := range ws {
-			ow := r.Ob(w.f, w.call, "sequence", "the method hands its unit id and the request built from its parameters to the shared request cycle and returns its result")
-			if w.problem != "" {
-				ow.Violation("%s", w.problem)
-			} else {
-				ow.OK("%s(%s, …) with request code %d", f.Name, w.f.Params()[0].Name(), w.code)
-			}
-			c.Analysed(w.f)
-			reqCodes = append(reqCodes, w.code)
-			names = append(names, w.f.Name)
-		}
-		if len(problems) > 0 {
-			oSeq.Violation("%s", strings.Join(problems, "; "))
-		} else {
-			oSeq.OK("encode(%s, %s) → write → read → cut → decode; shared by %s", f.Str(cc.enc.Args[0]), f.Str(cc.enc.Args[1]), strings.Join(names, ", "))
-		}
-	} else {
-		if idObj != types.Object(params[0]) {
-			problems = append(problems, fmt.Sprintf("the unit id encoded (`%s`) is not the method's first parameter", f.Str(cc.enc.Args[0])))
-		}
-		var ctor *kit.Func
-		var ctorCall *ast.CallExpr
-		if reqVar != nil {
-			if call, ok := ast.Unparen(mbResolve(f, cc.enc.Args[1])).(*ast.CallExpr); ok {
-				ctor, ctorCall = f.CalleeFunc(call), call
-			}
-		}
-		reqCode := int64(-1)
-		if ctor == nil || ctor.Decl == nil {
-			problems = append(problems, "the request is not built by a module constructor")
-		} else {
-			if len(ctorCall.Args) != len(params)-1 {
-				problems = append(problems, "the request constructor does not receive the method's parameters")
-			} else {
-				for i, a := range ctorCall.Args {
-					if kit.ObjOf(info, a) != types.Object(params[i+1]) {
-						problems = append(problems, fmt.Sprintf("request constructor argument %d is `%s`, not parameter %s", i+1, f.Str(a), params[i+1].Name()))
-					}
-				}
-			}
-			code, msg := m.ctorShape(ctor)
-			if msg != "" {
-				problems = append(problems, ctor.Name+": "+msg)
-			}
-			reqCode = code
-		}
-		reqCodes = append(reqCodes, reqCode)
-		if len(problems) > 0 {
-			oSeq.Violation("%s", strings.Join(problems, "; "))
-		} else {
-			oSeq.OK("encode(%s, %s(...)) → write → read → cut → decode; request code %d", params[0].Name(), ctor.Name, reqCode)
-		}
-	}
-
-	// typestate
-	respVar := kit.ObjOf(info, decL[1])
-	isFld := func(e ast.Expr, v types.Object, fld *types.Var) bool {
-		sel, ok := ast.Unparen(e).(*ast.SelectorExpr)
-		if !ok || v == nil || kit.ObjOf(info, sel.X) != v {
 			return false
 		}
-		s, ok := info.Selections[sel]
-		return ok && s.Obj() == types.Object(fld)
-	}
-	mkStd := func() *kit.Std {
-		st := &kit.Std{F: f}
-		st.Eval.Atom = func(e ast.Expr) (string, bool, bool) {
-			e = ast.Unparen(mbCond(f, e))
-			if a, b, op, ok := kit.CmpAtom(e); ok && (op == token.NEQ || op == token.EQL) {
-				if (isFld(a, respVar, m.FcField) && isFld(b, reqVar, m.FcField)) || (isFld(b, respVar, m.FcField) && isFld(a, reqVar, m.FcField)) {
-					return "fcne", op == token.EQL, true
-				}
-			}
-			if call, ok := e.(*ast.CallExpr); ok && len(call.Args) == 2 && kit.CallIs(info, call, "bytes.Equal") {
-				a, b := call.Args[0], call.Args[1]
-				if (isFld(a, respVar, m.DataField) && isFld(b, reqVar, m.DataField)) || (isFld(b, respVar, m.DataField) && isFld(a, reqVar, m.DataField)) {
-					return "echoeq", false, true
-				}
-			}
-			return "", false, false
+		if walk(e) {
+			return false
 		}
-		st.ErrTag = func(call *ast.CallExpr, s kit.S) string { return m.transportCall(f, call) }
-		st.OnErrEdge = func(tag string, isErr bool, s kit.S) (kit.S, bool) {
-			if isErr {
-				return s.Set("failed", tag), true
-			}
-			return s.Set("ok:"+tag, "1"), true
+	}
+	return true
+}
+
+// runClient evaluates entry point f under a scenario.
+func (m *c19Model) runClient(f *kit.Func, sc clientScenario) clientRun {
+	c := m.c
+	ip := &kit.Interp{P: c.P, F: f, MaxSteps: 200000}
+	params := f.Params()
+	ip.Input = func(key string, t types.Type) (kit.IVal, bool) {
+		if strings.HasPrefix(key, "elem:") {
+			return kit.IVal{K: 'i', I: 2}, true
 		}
-		return st
-	}
-	type exitKind struct {
-		e    kit.Exit
-		kind string // nil | nonnil | unknown | decoder
-		dec  *kit.Func
-	}
-	classify := func(st *kit.Std, e kit.Exit) exitKind {
-		if e.Return != nil && len(e.Return.Results) == 1 {
-			if call, ok := ast.Unparen(e.Return.Results[0]).(*ast.CallExpr); ok {
-				if cf := f.CalleeFunc(call); cf != nil {
-					for _, d := range m.Decoders {
-						if d == cf {
-							if sel, ok := ast.Unparen(call.Fun).(*ast.SelectorExpr); ok && kit.ObjOf(info, sel.X) == respVar {
-								return exitKind{e, "decoder", d}
-							}
+		for i, p := range params {
+			if p.Name() == key {
+				if b, ok := p.Type().Underlying().(*types.Basic); ok {
+					switch {
+					case b.Info()&types.IsBoolean != 0:
+						return kit.IVal{K: 'b', I: 1}, true
+					case b.Info()&types.IsInteger != 0:
+						if i == 0 {
+							return kit.IVal{K: 'i', I: clID}, true
 						}
+						return kit.IVal{K: 'i', I: clParam + int64(i)}, true
 					}
 				}
 			}
 		}
-		return exitKind{e, mbReturnsNil(f, st, e), nil}
+		if t != nil {
+			if b, ok := t.Underlying().(*types.Basic); ok && b.Info()&types.IsInteger != 0 {
+				return kit.IVal{K: 'i', I: 0}, true // debug level and the like
+			}
+		}
+		return kit.IVal{}, false
 	}
+	ip.Heap0 = map[string]kit.IVal{
+		"hook:resp." + m.FcField.Name():   {K: 'i', I: sc.respFc, Dyn: m.FcType},
+		"hook:resp." + m.DataField.Name(): {K: 's', L: clResp, C: clResp, Env: true},
+	}
+	errOf := func(stage string) kit.IVal {
+		if sc.fail == stage {
+			return kit.IVal{K: 'e'}
+		}
+		return kit.IVal{K: 'n'}
+	}
+	run := clientRun{}
+	ip.OnCallHeap = func(call *ast.CallExpr, args []kit.IVal, heap map[string]kit.IVal) (string, []kit.IVal) {
+		fn := m.mbModel.fnOf(call)
+		switch m.transportCall(fn, call) {
+		case "encode":
+			ev := "E:?"
+			if len(args) == 2 && args[1].K == 't' {
+				fc := heap[args[1].Ref+"."+m.FcField.Name()]
+				d := heap[args[1].Ref+"."+m.DataField.Name()]
+				ev = fmt.Sprintf("E:id=%s,fc=%s,dl=%d", args[0], fc, d.L)
+			}
+			return ev, []kit.IVal{{K: 's', L: clPkt, C: clPkt}, errOf("encode")}
+		case "write":
+			ev := "W:other"
+			if len(args) == 1 && args[0].K == 's' && args[0].L == clPkt && args[0].C == clPkt {
+				ev = "W:packet"
+			}
+			return ev, []kit.IVal{{K: 'i', I: clPkt}, errOf("write")}
+		case "read":
+			ev := "R:?"
+			if len(args) == 1 && args[0].K == 's' {
+				ev = fmt.Sprintf("R:len=%d,cap=%d", args[0].L, args[0].C)
+			}
+			return ev, []kit.IVal{{K: 'i', I: clCnt}, errOf("read")}
+		case "decode":
+			ev := "D:?"
+			if len(args) == 1 && args[0].K == 's' {
+				ev = fmt.Sprintf("D:len=%d,cap=%d", args[0].L, args[0].C)
+			}
+			return ev, []kit.IVal{{K: 'i', I: clID}, {K: 't', Ref: "hook:resp"}, errOf("decode")}
+		}
+		callee := kit.Callee(fn.Info(), call)
+		if kit.QualName(callee) == "bytes.Equal" && len(args) == 2 {
+			isResp := func(v kit.IVal) bool { return v.K == 's' && v.Env && v.L == clResp }
+			isReq := func(v kit.IVal) bool { return v.K == 's' && !v.Env && v.L >= 0 }
+			if (isResp(args[0]) && isReq(args[1])) || (isResp(args[1]) && isReq(args[0])) {
+				v := int64(0)
+				if sc.echo {
+					v = 1
+				}
+				return "EQ:req,resp", []kit.IVal{{K: 'b', I: v}}
+			}
+			return "EQ:other", nil
+		}
+		// request constructors: module functions without receiver that return a PDU
+		if fo, ok := callee.(*types.Func); ok {
+			sig := fo.Type().(*types.Signature)
+			if sig.Recv() == nil && sig.Results().Len() == 1 && types.Identical(sig.Results().At(0).Type(), m.PduType) && fo.Pkg() == m.pkg {
+				var as []string
+				for _, a := range args {
+					as = append(as, a.String())
+				}
+				run.ctors = append(run.ctors, fo.Name()+"|"+strings.Join(as, ","))
+				return "C:" + fo.Name(), nil
+			}
+		}
+		return "", nil
+	}
+	run.res = ip.Run()
+	c.AddValuations(1)
+	return run
+}
+
+// errResult classifies the error result of an exit: "nil", "err", "?".
+func clientErr(e kit.IExit) string {
+	if len(e.Vals) == 0 {
+		return "?"
+	}
+	switch v := e.Vals[len(e.Vals)-1]; {
+	case v.K == 'n':
+		return "nil"
+	case v.K == 'e' || (v.K == 'i' && v.Dyn != nil):
+		return "err"
+	}
+	return "?"
+}
+
+func c19ClientEntry(c *kit.Ctx, m *c19Model, r *kit.Rule, f *kit.Func) {
+	oSeq := r.Ob(f, nil, "sequence", "one encode, write, read and decode, in this order, each handing its result to the next; the unit id and the request built from the parameters are what is encoded")
+	oErr := r.Ob(f, nil, "transport errors", "a failed encode, write, read or decode makes the method return an error and stops the cycle; success is only reported after all four succeeded")
+	oFc := r.Ob(f, nil, "function code check", "a response that carries an exception or the function code of another kind of request is rejected")
 	sig := f.Obj.Type().(*types.Signature)
 	isWrite := sig.Results().Len() == 1
-	stages := []string{"encode", "write", "read", "decode"}
-
-	oErr := r.Ob(f, nil, "transport errors", "a failed encode, write, read or decode makes the method return an error; success is only reported after all four succeeded")
-	oFc := r.Ob(f, nil, "function code check", "a response whose function code differs from the request's is rejected (directly, or by the response decoder the method returns through)")
 	var oEcho *kit.Ob
 	if isWrite {
 		oEcho = r.Ob(f, nil, "echo check", "a write is acknowledged only if the response echoes the request data")
 	}
-	run := func(init kit.S) (*kit.Std, []exitKind) {
-		st := mkStd()
-		res := g.Run(init, st.Client())
-		c.AddValuations(1)
-		var out []exitKind
+	params := f.Params()
+	if len(params) < 2 {
+		oSeq.Undecided("unexpected parameter list")
+		return
+	}
+	usable := func(o *kit.Ob, run clientRun, what string) bool {
+		res := run.res
+		if len(res.Unsupported) > 0 || res.Overflow || len(res.Exits) == 0 {
+			o.Undecided("%s: the method cannot be evaluated (%v)", what, res.Unsupported)
+			return false
+		}
+		if len(res.Crashes) > 0 {
+			o.Undecided("%s: the evaluation panics: %s", what, res.Crashes[0].Msg)
+			return false
+		}
 		for _, e := range res.Exits {
-			if e.Return != nil {
-				out = append(out, classify(st, e))
+			if e.Tainted || clientErr(e) == "?" {
+				o.Undecided("%s: an exit depends on values the evaluator cannot follow", what)
+				return false
 			}
 		}
-		return st, out
+		return true
 	}
-	// universal conditions, good response
-	_, exits := run(kit.NewS().Set("a:fcne", "F").Set("a:echoeq", "T"))
+	stage := func(trace []string, p string) int {
+		n := 0
+		for _, t := range trace {
+			if strings.HasPrefix(t, p) {
+				n++
+			}
+		}
+		return n
+	}
+	// ---- discovery: which constructor, which code
+	probe := m.runClient(f, clientScenario{respFc: 0, echo: true})
+	ctorName, ctorArgs := "", ""
+	for _, cs := range probe.ctors {
+		parts := strings.SplitN(cs, "|", 2)
+		if ctorName != "" && ctorName != parts[0] {
+			oSeq.Undecided("more than one request constructor is called (%s, %s)", ctorName, parts[0])
+			return
+		}
+		ctorName, ctorArgs = parts[0], parts[1]
+	}
+	if ctorName == "" {
+		oSeq.Violation("the request is not built by a module constructor")
+		return
+	}
+	ctor := c.P.FuncNamed("modbus", ctorName)
+	code, msg := m.ctorShape(ctor)
+	// ---- S0: everything succeeds
+	ok := m.runClient(f, clientScenario{respFc: code, echo: true})
+	if !usable(oSeq, ok, "successful exchange") {
+		return
+	}
+	var problems []string
+	if msg != "" {
+		problems = append(problems, ctorName+": "+msg)
+	}
+	var wantArgs []string
+	for i := range params[1:] {
+		p := params[i+1]
+		if b, isB := p.Type().Underlying().(*types.Basic); isB && b.Info()&types.IsBoolean != 0 {
+			wantArgs = append(wantArgs, "true")
+		} else {
+			wantArgs = append(wantArgs, fmt.Sprint(clParam+int64(i+1)))
+		}
+	}
+	if ctorArgs != strings.Join(wantArgs, ",") {
+		problems = append(problems, fmt.Sprintf("the request constructor %s receives (%s), not the method's parameters (%s) in order", ctorName, ctorArgs, strings.Join(wantArgs, ",")))
+	}
 	success := 0
-	for _, x := range exits {
-		failed := x.e.State.Get("failed")
-		switch {
-		case failed != "" && x.kind != "nonnil":
-			oErr.Violation("after a failed %s the method still reaches `%s` (%s), which does not return the error", failed, trunc(f.Str(x.e.Return), 50), f.At(x.e.Return))
-		case failed == "" && (x.kind == "nil" || x.kind == "decoder"):
-			success++
-			for _, s := range stages {
-				if x.e.State.Get("ok:"+s) != "1" {
-					oErr.Violation("`%s` (%s) reports success although the result of %s was never checked", trunc(f.Str(x.e.Return), 50), f.At(x.e.Return), s)
+	for _, e := range ok.res.Exits {
+		if clientErr(e) != "nil" {
+			continue
+		}
+		success++
+		var seq []string
+		for _, t := range e.Trace {
+			if len(t) > 2 && t[1] == ':' {
+				switch t[0] {
+				case 'E', 'W', 'R', 'D':
+					seq = append(seq, t)
 				}
 			}
-		case x.kind == "unknown":
-			oErr.Undecided("cannot classify `%s` at %s", f.Str(x.e.Return), f.At(x.e.Return))
+		}
+		if len(seq) != 4 || seq[0][0] != 'E' || seq[1][0] != 'W' || seq[2][0] != 'R' || seq[3][0] != 'D' {
+			problems = append(problems, fmt.Sprintf("a successful exchange runs %v instead of encode, write, read, decode", seq))
+			continue
+		}
+		if want := fmt.Sprintf("E:id=%d,fc=%d,dl=4", clID, code); seq[0] != want {
+			problems = append(problems, fmt.Sprintf("what is encoded is %s, expected %s (the method's unit id and the constructed request)", seq[0][2:], want[2:]))
+		}
+		if seq[1] != "W:packet" {
+			problems = append(problems, "what is written is not the encoded packet")
+		}
+		var rl, rc, dl, dc int64
+		fmt.Sscanf(seq[2], "R:len=%d,cap=%d", &rl, &rc)
+		fmt.Sscanf(seq[3], "D:len=%d,cap=%d", &dl, &dc)
+		if dl != clCnt || dc != rc {
+			problems = append(problems, fmt.Sprintf("what is decoded (len %d, cap %d) is not the buffer read into (cap %d) cut to the %d bytes read", dl, dc, rc, clCnt))
 		}
 	}
 	if success == 0 {
-		oErr.Violation("a correct exchange never ends in success")
+		problems = append(problems, "a correct exchange never ends in success")
 	}
-	oErr.OK("every error edge returns a non-nil error; %d success exit(s) after all four stages", success)
-	// wrong function code
-	_, exits = run(kit.NewS().Set("a:fcne", "T").Set("a:echoeq", "T"))
-	for _, x := range exits {
-		if x.e.State.Get("failed") != "" {
-			continue
+	if len(problems) > 0 {
+		oSeq.Violation("%s", strings.Join(uniqStrings(problems), "; "))
+	} else {
+		oSeq.OK("encode(id, %s(params…)) → write(packet) → read → decode(buffer[:n]); request code %d", ctorName, code)
+	}
+	// ---- failures of each stage
+	order := []string{"encode", "write", "read", "decode"}
+	prefix := map[string]string{"encode": "E", "write": "W", "read": "R", "decode": "D"}
+	errOK := true
+	for i, st := range order {
+		run := m.runClient(f, clientScenario{fail: st, respFc: code, echo: true})
+		if !usable(oErr, run, "failing "+st) {
+			errOK = false
+			break
 		}
-		switch x.kind {
-		case "nil":
-			oFc.Violation("a response with another function code is accepted at %s", f.At(x.e.Return))
-		case "decoder":
-			codes, okCodes := m.acceptedCodes(x.dec)
-			if !okCodes {
-				oFc.Undecided("the function codes accepted by %s cannot be determined", x.dec.Name)
-				continue
+		for _, e := range run.res.Exits {
+			if stage(e.Trace, prefix[st]+":") == 0 {
+				continue // the stage was not reached on this path
 			}
-			for _, reqCode := range reqCodes {
-				has := false
-				for _, k := range codes {
-					if k == reqCode {
-						has = true
-					}
-					if k >= 0x80 {
-						has = false
-						break
-					}
-				}
-				if len(codes) == 0 || !has {
-					oFc.Violation("the method returns through %s, which accepts function codes %v, not the request's code %d", x.dec.Name, codes, reqCode)
+			if clientErr(e) == "nil" {
+				oErr.Violation("after a failed %s the method still reports success (%s)", st, f.At(e.Ret))
+				errOK = false
+			}
+			for _, later := range order[i+1:] {
+				if stage(e.Trace, prefix[later]+":") > 0 {
+					oErr.Violation("after a failed %s the method goes on to %s", st, later)
+					errOK = false
 				}
 			}
-		case "unknown":
-			oFc.Undecided("cannot classify `%s`", f.Str(x.e.Return))
 		}
 	}
-	oFc.OK("mismatch → error (or decoder that accepts only the family of %v)", reqCodes)
+	if errOK {
+		oErr.OK("each of the four stages failing ends in an error without running the later stages")
+	}
+	// ---- foreign function codes
+	other := map[int64]int64{1: 3, 2: 3, 3: 1, 4: 1, 5: 6, 6: 5, 15: 16, 16: 15}[code]
+	fcOK := true
+	for _, fc := range []int64{code | 0x80, other} {
+		run := m.runClient(f, clientScenario{respFc: fc, echo: true})
+		if !usable(oFc, run, fmt.Sprintf("response with function code %d", fc)) {
+			fcOK = false
+			break
+		}
+		for _, e := range run.res.Exits {
+			if clientErr(e) == "nil" {
+				oFc.Violation("a response with function code 0x%02X to a request with function code %d is accepted (%s)", fc, code, f.At(e.Ret))
+				fcOK = false
+			}
+		}
+	}
+	if fcOK {
+		oFc.OK("responses with 0x%02X (exception) and %d (another kind of request) are rejected", code|0x80, other)
+	}
+	// ---- echo
 	if isWrite {
-		_, exits = run(kit.NewS().Set("a:fcne", "F").Set("a:echoeq", "F"))
-		for _, x := range exits {
-			if x.e.State.Get("failed") != "" {
-				continue
+		run := m.runClient(f, clientScenario{respFc: code, echo: false})
+		if usable(oEcho, run, "response that does not echo the request") {
+			bad := false
+			compared := false
+			for _, e := range run.res.Exits {
+				if stage(e.Trace, "EQ:req,resp") > 0 {
+					compared = true
+				}
+				if clientErr(e) == "nil" {
+					oEcho.Violation("a response that does not echo the request data is acknowledged (%s)", f.At(e.Ret))
+					bad = true
+				}
 			}
-			if x.kind == "nil" {
-				oEcho.Violation("a response that does not echo the request data is acknowledged at %s", f.At(x.e.Return))
+			if !bad && !compared {
+				oEcho.Undecided("the response data is not compared with the request data by bytes.Equal")
+			} else if !bad {
+				oEcho.OK("echo mismatch → error")
 			}
 		}
-		oEcho.OK("echo mismatch → error")
 	}
-	return entries
 }
 
 // ctorShape checks a request constructor: returns PDU{FunctionCode: <const>,
